@@ -285,6 +285,7 @@ func C08() int {
 	}
 	if os.Getenv("VERIF_C08_CODEC_ONLY") != "1" {
 		c08Reader(rep, kernel.NewBudget(map[string]time.Duration{"quick": 40 * time.Second, "thorough": 10 * time.Minute}[tier]))
+		c08TwoIngests(rep, kernel.NewBudget(map[string]time.Duration{"quick": 40 * time.Second, "thorough": 10 * time.Minute}[tier]))
 		c08E2E(rep)
 	}
 	return rep.Finish()
@@ -306,6 +307,13 @@ func init() {
 			Order []string `json:"order"`
 		}
 		_ = json.Unmarshal(doc, &probe)
+		var probe3 struct {
+			NewSeries *bool `json:"newSeries"`
+		}
+		_ = json.Unmarshal(doc, &probe3)
+		if probe3.NewSeries != nil {
+			return MakeReplayer[c08VJob]("C08", "exploration", logPool, c08VRun)(doc)
+		}
 		if len(probe.Order) > 0 {
 			return MakeReplayer[c08ReaderJob]("C08", "exploration", logPool, c08ReaderRun)(doc)
 		}
